@@ -256,11 +256,38 @@ class FnA:
             if v is not None:
                 return ("const", v, o["ty"])
             if "def" in o:
+                if o.get("promoted") is not None and o["def"] == self.fn.id and o["promoted"] < len(getattr(self.fn, "promoted", [])) and depth < 20:
+                    pv = self._promoted_value(o["promoted"])
+                    if pv is not None:
+                        return pv
                 return ("constdef", o["def"], o.get("promoted"))
             return ("const", None, o["ty"])
         if k in ("copy", "move"):
             return self.val_place(o["p"], point, depth)
         return ("unknown", o.get("txt", k))
+
+    def _promoted_value(self, idx):
+        """Value of promoted constant #idx of this function (e.g. `&CcState::Drain` -> the Drain aggregate)."""
+        from .facts import PromotedFn
+        memo = self.__dict__.setdefault("_promoted_memo", {})
+        if idx in memo:
+            return memo[idx]
+        memo[idx] = None
+        try:
+            pf = PromotedFn(self.fn, idx)
+            if len(pf.blocks) > 4:
+                return None
+            fa = FnA(self.world, pf)
+            rets = fa.cfg.returns
+            if len(rets) != 1:
+                return None
+            v = fa.val_local(0, (rets[0], len(pf.blocks[rets[0]]["stmts"])))
+            if any(x[0] in ("unknown", "var", "param") for x in walk(v)):
+                return None
+            memo[idx] = v
+            return v
+        except Exception:
+            return None
 
     def val_place(self, p, point, depth=0):
         base = self.val_local(p["l"], point, depth)
@@ -640,3 +667,8 @@ def fna_of(world, fn):
         r = FnA(world, fn)
         _fna_cache[k] = r
     return r
+
+
+def strip_old(e):
+    """Forget the evaluation-point pins (`old[..]`) of an expression (for comparing two reads of the same thing)."""
+    return subst(e, lambda x: strip_old(x[1]) if isinstance(x, tuple) and x and x[0] == "old" else None)
